@@ -11,7 +11,7 @@ pub const NSTR: usize = 5;
 /// whose case folding is not their lower-case form (final sigma, long s, micro sign, beta
 /// symbol), that fold to two characters (sharp s, ff ligature), or that do not fold at all
 /// although their case mappings suggest it (dotless i, dotted capital I)
-const CHARS: [char; 56] = [
+const CHARS: [char; 60] = [
     'a', 'Z', 'm', '0', '9', ' ', '~', '(', // 1 byte
     'é', 'É', 'λ', 'Λ', 'ñ', 'Ж', 'ж', 'ö', // 2 bytes
     '日', '本', '€', '★', 'ᄀ', // 3 bytes
@@ -21,6 +21,8 @@ const CHARS: [char; 56] = [
     '\u{212A}', 'k', '\u{212B}', 'å', '\u{2126}', 'ω', '\u{023A}', '\u{2C65}',
     // folding differs from lower-casing
     'σ', 'ς', 'Σ', 's', 'S', 'ſ', 'μ', 'µ', 'β', 'ϐ', 'ß', 'ẞ', 'ﬀ', 'f', 'i', 'I', 'ı', 'İ',
+    // characters that a string literal has to escape
+    '"', '\\', '\n', '\t',
 ];
 
 /// characters that are case variants of one another (used to build interesting operands only;
@@ -392,6 +394,41 @@ impl<'a> G15<'a> {
         self.dump();
     }
 
+    /// read one character, mutate the string in place, read another character: a reader that
+    /// remembers where it was must notice the mutation
+    fn read_mutate_read(&mut self) {
+        let name = format!("s{}", self.rng.usize(NSTR));
+        let content = self.model_string(&name).unwrap_or_default();
+        if content.len() < 2 {
+            return;
+        }
+        let n = content.len();
+        let i = self.rng.usize(n);
+        let c = self.rand_char();
+        let (a, b) = {
+            let x = self.rng.usize(n + 1);
+            let y = self.rng.usize(n + 1);
+            (x.min(y), x.max(y))
+        };
+        let mutation = match self.rng.below(3) {
+            0 => format!("(string-fill! {} {} {} {})", name, chr_lit(c), a, b),
+            1 => format!("(string-fill! {} {})", name, chr_lit(c)),
+            _ => format!("(string-set! {} {} {})", name, self.rng.usize(n), chr_lit(c)),
+        };
+        let j = self.rng.usize(n);
+        let k = self.rng.usize(n);
+        self.ops.push("read-mutate-read");
+        for t in [
+            format!("(string-ref {} {})", name, i),
+            mutation,
+            format!("(string-ref {} {})", name, j),
+            format!("(list (string-ref {} {}) (string-length {}) (string->list {}))", name, k, name, name),
+        ] {
+            self.emit(&t);
+        }
+        self.dump();
+    }
+
     fn marker_probe(&mut self) {
         let (s, content, _alias) = self.mutable_string();
         if content.is_empty() {
@@ -413,6 +450,8 @@ impl<'a> G15<'a> {
         for s in 0..steps {
             if s % 3 == 2 {
                 self.marker_probe();
+            } else if self.rng.chance(1, 6) {
+                self.read_mutate_read();
             } else {
                 self.one_op();
             }
